@@ -63,6 +63,11 @@ def from_private_bytes(it, fr, cls, data):
 def generate_private(it, fr, cls):
     used('Ed25519PrivateKey.generate: a fresh arbitrary 32-byte key')
     n = it.eng.path_local['ngen'] = it.eng.path_local.get('ngen', 0) + 1
+    if it.eng.path_local.get('gen_unrolled'):
+        # the 32 private bytes as symbolic variables (every 32-byte string is a valid ed25519 seed)
+        bs = [z3.Int(f'genkey{n}.b{j}') for j in range(32)]
+        it.eng.domain(('genkey', n), z3.And([z3.And(b >= 0, b <= 255) for b in bs]))
+        return KeyObj(raw=SBytes('raw', n=z3.IntVal(32), bs=bs, name=f'genkey{n}'), private=True)
     return KeyObj(raw=SBytes('keyraw', kid=z3.Int(f'genkey{n}')), private=True)
 
 
@@ -575,7 +580,12 @@ def file_method(it, fr, f, attr, args, kw):
             raise PyExc(TypeError(f'write() argument must be str, not {t.__name__}'))
         cur = fs.files.get(f.ident)
         empty = cur in (b'', '', None)
-        if empty:
+        if getattr(f, 'inplace', False) and not empty:
+            if f.wpos or not f.binary:
+                raise Unsupported('second in-place write / text-mode in-place write')
+            f.wpos = 1
+            fs.files[f.ident] = overwrite_in_place(it, cur, data)
+        elif empty:
             fs.files[f.ident] = data
         elif isinstance(cur, (bytes, str)) and isinstance(data, (bytes, str)):
             fs.files[f.ident] = cur + data
@@ -613,6 +623,69 @@ def file_exit(it, fr, cm, pe):
 
 SPECIAL[builtins.open] = sp_open
 SPECIAL[io.open] = sp_open
+
+
+def sp_os_open(it, fr, path, flags, mode=0o777, *a, **kw):
+    used('os.open()/os.fdopen(): in-memory file system; O_CREAT / O_EXCL / O_TRUNC honoured, without O_TRUNC the old content stays and writes overwrite it in place from offset 0')
+    import os
+    it.step('open')
+    path, flags = fr.split(path), fr.split(flags)
+    if not isinstance(flags, int):
+        raise Unsupported('symbolic os.open flags')
+    fs = get_fs(it)
+    key = path_key(path)
+    fs.log.append(('open', key, f'os.open:{flags:#o}'))
+    if isinstance(fs.files.get(key), SAny):
+        fs.files[key] = fr.split(fs.files[key])
+    exists = fs.files.get(key) is not None
+    if not exists and not flags & os.O_CREAT:
+        raise PyExc(FileNotFoundError(2, 'No such file or directory', key))
+    if exists and flags & os.O_CREAT and flags & os.O_EXCL:
+        raise PyExc(FileExistsError(17, 'File exists', key))
+    acc = flags & os.O_ACCMODE
+    if not exists:
+        fs.files[key] = b''
+    elif flags & os.O_TRUNC and acc in (os.O_WRONLY, os.O_RDWR):
+        fs.files[key] = b''
+        it.eng.event('truncate', path=key)
+    fd = Opaque(int, 'fd', key)
+    fd.flags = flags
+    return fd
+
+
+def sp_fdopen(it, fr, fd, mode='r', *a, **kw):
+    fd = fr.split(fd)
+    mode = kw.get('mode', mode)
+    if not (isinstance(fd, Opaque) and fd.what == 'fd'):
+        raise Unsupported('fdopen of a descriptor that did not come from os.open')
+    if not isinstance(mode, str):
+        raise Unsupported('symbolic open mode')
+    binary = 'b' in mode
+    f = Opaque(io.BufferedIOBase if binary else io.TextIOBase, 'file', fd.ident)
+    f.mode, f.binary, f.closed, f.pos0 = mode, binary, False, True
+    f.inplace = 'a' not in mode         # writes start at offset 0 over whatever the file holds
+    f.wpos = 0
+    return f
+
+
+import os as _os
+SPECIAL[_os.open] = sp_os_open
+SPECIAL[_os.fdopen] = sp_fdopen
+
+
+def overwrite_in_place(it, cur, data):
+    """content after writing `data` at offset 0 over `cur` (both unrolled-able byte strings)"""
+    from .models import unrollable, cap, byte_at
+    if not (unrollable(cur) and unrollable(data)):
+        raise Unsupported('in-place overwrite of opaque file content')
+    lc, ld = bytes_len(it, cur), bytes_len(it, data)
+    C = max(cap(cur), cap(data))
+    bs = []
+    for j in range(C):
+        d = byte_at(data, j) if j < cap(data) else z3.IntVal(0)
+        c = byte_at(cur, j) if j < cap(cur) else z3.IntVal(0)
+        bs.append(z3.If(ld > j, d, c))
+    return SBytes('raw', n=z3.If(ld >= lc, ld, lc), bs=bs, name='ovw(' + (getattr(cur, 'name', '') or 'c') + ',' + (getattr(data, 'name', '') or 'd') + ')')
 
 
 # ---------------------------------------------------------------------------
